@@ -9,14 +9,21 @@
 (* LF after pre/listing/textarea dropped, newlines normalised) and compared with the stream    *)
 (* the serializer was given.                                                                   *)
 (* Data: walker tokens [t, n, ns, a, d, p, s] (a = Seq of <<attr ns, local name, value>>);      *)
-(* options o = [qav, qc, ltattr, escrc, minbool, solidus, spacesol, resolve];                   *)
-(* omit_optional_tags, strip_whitespace, sanitize, alphabetical_attributes are OFF, no encoding.*)
-EXTENDS Unicode, Gen_Names, Gen_SerNames
+(* options o = [qav, qc, ltattr, escrc, minbool, solidus, spacesol, resolve, pf];               *)
+(* omit_optional_tags, strip_whitespace, sanitize, alphabetical_attributes, inject_meta_charset *)
+(* are OFF.  OUTPUT ENCODING: o.pf lists the code points the requested encoding cannot represent *)
+(* (a fact about the codec, supplied by the harness; <<>> = no encoding or everything fits).     *)
+(* HTMLSerializer.encode() ("htmlentityreplace") turns such a character of text / of an attribute*)
+(* value into a character reference (EncRef: the name the handler's table selects, ';' appended  *)
+(* when the name lacks it, else &#x<hex>;); encodeStrict() (names, doctype, comments, end tags)  *)
+(* raises UnicodeEncodeError: the run "crashes" (no output, not silent).  The machine's output   *)
+(* is the DECODED byte stream (the reader decodes with the writer's codec; codec mismatch: C15). *)
+EXTENDS Unicode, Gen_Names, Gen_SerNames, Gen_SerRefs
 CONSTANT KnownDefects
 SerDefectNames == {"ser-cdata-bare-name", "ser-noscript-raw", "ser-plaintext-escaped", "ser-cr-raw",
                    "ser-pre-leading-lf", "ser-attr-prefix-dropped", "ser-unquoted-solidus",
                    "ser-doctype-publicid-quote", "ser-doctype-name-none", "ser-script-escape-unchecked",
-                   "ser-rcdata-child-unchecked"}
+                   "ser-rcdata-child-unchecked", "ser-rawtext-charref", "ser-charref-remapped"}
 Scripting == FALSE        \* ASSUMED: the reader has scripting disabled (as html5lib's own parser): noscript content is data
 
 Tz == INSTANCE Tokenizer WITH KnownDefects <- {}
@@ -46,6 +53,22 @@ IsLegacyQ(c) == IsSpecQ(c) \/ c <= 32 \/ c \in {47, 96, 160, 5760, 6158, 6159, 8
                 \/ (c >= 8192 /\ c <= 8202)                                                  \* _quoteAttributeLegacy
 XmlEntityNames == {S_lt, S_gt, S_amp, S_apos, S_quot}
 
+\* ---- output encoding ----
+PF(o)      == Range(o.pf)
+Bad(s, o)  == o.pf # <<>> /\ \E i \in 1..Len(s) : s[i] \in PF(o)           \* s holds a character the encoding lacks
+HexDigit(d) == IF d < 10 THEN 48 + d ELSE 87 + d
+RECURSIVE Hex(_)
+Hex(n) == IF n < 16 THEN <<HexDigit(n)>> ELSE Append(Hex(n \div 16), HexDigit(n % 16))
+\* htmlentityreplace_errors: "&" + name (+ ";" unless the name ends in one) or "&#x%s;" % hex(cp)[2:]
+EncRef(c)  == LET i == EncIndex(c) IN
+              IF i = 0 THEN X_numref \o Hex(c) \o <<59>>
+              ELSE LET nm == EncTable[i][2] IN <<38>> \o nm \o (IF Last(nm) = 59 THEN <<>> ELSE <<59>>)
+Soft(s, o) == IF o.pf = <<>> THEN s ELSE LET F(c) == IF c \in PF(o) THEN EncRef(c) ELSE <<c>> IN MapCat(s, F)
+\* numeric references the reader does not resolve to the character written: 0x80-0x9F go through the windows-1252
+\* table (all but 81 8D 8F 90 9D change), surrogates (a str fed to the parser may carry lone ones) become U+FFFD
+C1Remapped(c) == (c >= 128 /\ c <= 159 /\ c \notin {129, 141, 143, 144, 157}) \/ IsSurrogate(c)
+BadC1(s, o)   == o.pf # <<>> /\ \E i \in 1..Len(s) : s[i] \in PF(o) /\ C1Remapped(s[i])
+
 \* the qualified name an attribute must be written with so that the reader's foreign-attribute adjustment restores it
 QName(ans, local) == IF ans = NS_xlink THEN X_xlink_ \o local
                      ELSE IF ans = NS_xml THEN X_xml_ \o local
@@ -56,7 +79,8 @@ QName(ans, local) == IF ans = NS_xlink THEN X_xlink_ \o local
 \* ---------- the machine ----------
 \* rawbuf: text written so far inside the current raw-text element; rcel: the open HTML title/textarea (RCDATA) element.
 \* Both are used by the intended design only.
-SerInit == [out |-> <<>>, errs |-> <<>>, ferr |-> -1, cdata |-> FALSE, rawel |-> None, rawbuf |-> <<>>, rcel |-> None, pre |-> FALSE]
+SerInit == [out |-> <<>>, errs |-> <<>>, ferr |-> -1, cdata |-> FALSE, rawel |-> None, rawbuf |-> <<>>, rcel |-> None, pre |-> FALSE,
+            crash |-> FALSE]
 Emit(ss, s)   == [ss EXCEPT !.out = @ \o s]
 Err(ss, code) == [ss EXCEPT !.errs = Append(@, code), !.ferr = IF @ = -1 THEN Len(ss.out) ELSE @]
 ErrIf(ss, cond, code) == IF cond THEN Err(ss, code) ELSE ss
@@ -65,6 +89,7 @@ EscText(c, D) == IF c = 38 THEN X_amp ELSE IF c = 62 THEN X_gt ELSE IF c = 60 TH
                  ELSE IF c = 13 /\ ~On("ser-cr-raw", D) THEN X_cr13 ELSE <<c>>
 EscCR(c)      == IF c = 13 THEN X_cr13 ELSE <<c>>
 
+IdOrEmptyS(x) == IF x = None THEN <<>> ELSE x
 SerDoctype(ss, tok, D) ==
     LET nm   == IF tok.n = None THEN (IF On("ser-doctype-name-none", D) THEN X_none ELSE <<>>) ELSE tok.n
         hasP == tok.p # None /\ tok.p # <<>>
@@ -90,13 +115,16 @@ SerText(ss, tok, o, D) ==
         buf  == IF ss.cdata THEN ss.rawbuf \o d ELSE <<>>
         s3   == ErrIf(s2, ss.cdata /\ ss.rawel = N_script /\ ~On("ser-script-escape-unchecked", D)
                           /\ HasSub(buf, X_cmt_open) /\ ~HasSub(ss.rawbuf, X_cmt_open), "script-escape-in-cdata")
+        \* intended only: a reference is not resolved in raw text; &#x80;..&#x9f; do not denote U+0080..U+009F
+        s4   == ErrIf(s3, ss.cdata /\ Bad(d, o) /\ ~On("ser-rawtext-charref", D), "unencodable-in-cdata")
+        s5   == ErrIf(s4, ~ss.cdata /\ BadC1(d, o) /\ ~On("ser-charref-remapped", D), "unencodable-remapped")
         lead == IF ss.pre /\ d # <<>> /\ d[1] = 10 /\ ~On("ser-pre-leading-lf", D) THEN <<10>> ELSE <<>>
         body == IF ss.cdata THEN d
                 ELSE IF tok.t = "SpaceCharacters" THEN (IF On("ser-cr-raw", D) THEN d ELSE MapCat(d, EscCR))
                 ELSE LET F(c) == EscText(c, D) IN MapCat(d, F)
-    IN [Emit(s3, lead \o body) EXCEPT !.pre = FALSE, !.rawbuf = buf]
+    IN [Emit(s5, Soft(lead \o body, o)) EXCEPT !.pre = FALSE, !.rawbuf = buf]
 
-\* one attribute: returns [out, uq] (uq: the value was written unquoted)
+\* one attribute: returns [out, uq, c1] (uq: the value was written unquoted; c1: intended design reports the value)
 SerAttr(a, el, o, D) ==
     LET local == a[2]  v == a[3]
         k   == IF On("ser-attr-prefix-dropped", D) THEN local ELSE QName(a[1], local)
@@ -112,14 +140,16 @@ SerAttr(a, el, o, D) ==
                      ELSE IF Contains(v2, 34) /\ ~Contains(v2, 39) THEN 39 ELSE 34)
                ELSE IF o.qc = "sq" THEN 39 ELSE 34
         Q(c) == IF c = qc THEN (IF qc = 39 THEN X_apos39 ELSE X_quot) ELSE <<c>>
-    IN IF min THEN [out |-> <<32>> \o k, uq |-> FALSE]
-       ELSE IF qa THEN [out |-> <<32>> \o k \o <<61, qc>> \o MapCat(v2, Q) \o <<qc>>, uq |-> FALSE]
-       ELSE [out |-> <<32>> \o k \o <<61>> \o v2, uq |-> TRUE]
+        c1  == BadC1(v, o) /\ ~On("ser-charref-remapped", D)
+    IN IF min THEN [out |-> <<32>> \o k, uq |-> FALSE, c1 |-> FALSE]
+       ELSE IF qa THEN [out |-> <<32>> \o k \o <<61, qc>> \o Soft(MapCat(v2, Q), o) \o <<qc>>, uq |-> FALSE, c1 |-> c1]
+       ELSE [out |-> <<32>> \o k \o <<61>> \o Soft(v2, o), uq |-> TRUE, c1 |-> c1]
 
 RECURSIVE SerAttrs(_, _, _, _, _)
 SerAttrs(as, el, o, D, acc) ==
     IF as = <<>> THEN acc
-    ELSE LET r == SerAttr(as[1], el, o, D) IN SerAttrs(Tail(as), el, o, D, [out |-> acc.out \o r.out, uq |-> r.uq])
+    ELSE LET r == SerAttr(as[1], el, o, D) IN
+         SerAttrs(Tail(as), el, o, D, [out |-> acc.out \o r.out, uq |-> r.uq, c1 |-> acc.c1 \/ r.c1])
 
 SerTag(ss, tok, o, D) ==
     LET name == tok.n
@@ -131,11 +161,12 @@ SerTag(ss, tok, o, D) ==
         \* intended only: markup inside an RCDATA element would be read as text
         s2b  == ErrIf(s2, ss.rcel # None /\ ~On("ser-rcdata-child-unchecked", D), "child-in-rcdata")
         s3   == ErrIf(s2b, name = N_plaintext /\ IsHtmlNs(tok.ns) /\ ~On("ser-plaintext-escaped", D), "plaintext")
-        at   == SerAttrs(tok.a, name, o, D, [out |-> <<>>, uq |-> FALSE])
+        at   == SerAttrs(tok.a, name, o, D, [out |-> <<>>, uq |-> FALSE, c1 |-> FALSE])
+        s3b  == ErrIf(s3, at.c1, "unencodable-remapped")
         sol  == IF name \in VoidNames /\ o.solidus
                 THEN (IF o.spacesol \/ (at.uq /\ ~On("ser-unquoted-solidus", D)) THEN X_sp_solidus ELSE <<47>>)
                 ELSE <<>>
-    IN [Emit(s3, at.out \o sol \o <<62>>) EXCEPT
+    IN [Emit(s3b, at.out \o sol \o <<62>>) EXCEPT
            !.pre = (tok.t = "StartTag" /\ IsHtmlNs(tok.ns) /\ name \in {N_pre, N_listing, N_textarea}),
            !.rcel = IF ss.rcel = None /\ tok.t = "StartTag" /\ IsHtmlNs(tok.ns) /\ name \in {N_title, N_textarea}
                     THEN name ELSE ss.rcel]
@@ -160,7 +191,7 @@ SerEntity(ss, tok, o) ==
         txt == IF o.resolve /\ tok.n \notin XmlEntityNames THEN Tz!EntityValue(key) ELSE <<38>> \o key
     IN [Emit(s1, txt) EXCEPT !.pre = FALSE]
 
-SerStep(ss, tok, o, D) ==
+SerStep0(ss, tok, o, D) ==
     CASE tok.t = "Doctype" -> SerDoctype(ss, tok, D)
       [] tok.t \in {"Characters", "SpaceCharacters"} -> SerText(ss, tok, o, D)
       [] tok.t \in {"StartTag", "EmptyTag"} -> SerTag(ss, tok, o, D)
@@ -169,9 +200,28 @@ SerStep(ss, tok, o, D) ==
       [] tok.t = "Entity" -> SerEntity(ss, tok, o)
       [] OTHER -> Err(ss, "token")                                  \* SerializerError token of the walker
 
+\* encodeStrict: does the step write a character the encoding lacks through the strict path?
+\* (the start-tag NAME is written before the step's checks, everything else after them)
+StrictBad(tok, o, D) ==
+    CASE tok.t = "Doctype" -> Bad(IdOrEmptyS(tok.n), o) \/ Bad(IdOrEmptyS(tok.p), o) \/ Bad(IdOrEmptyS(tok.s), o)
+      [] tok.t \in {"StartTag", "EmptyTag"} -> \E i \in 1..Len(tok.a) : Bad(tok.a[i][2], o)
+      [] tok.t = "EndTag" -> Bad(tok.n, o)
+      [] tok.t = "Comment" -> Bad(tok.d, o)
+      [] tok.t = "Entity" -> o.resolve /\ tok.n \notin XmlEntityNames /\ Bad(Tz!EntityValue(Append(tok.n, 59)), o)
+      [] OTHER -> FALSE
+SerStep(ss, tok, o, D) ==
+    IF ss.crash THEN ss
+    ELSE IF o.pf = <<>> THEN SerStep0(ss, tok, o, D)
+    ELSE IF tok.t \in {"StartTag", "EmptyTag"} /\ Bad(tok.n, o) THEN [ss EXCEPT !.crash = TRUE]
+    ELSE IF StrictBad(tok, o, D) THEN [SerStep0(ss, tok, o, D) EXCEPT !.crash = TRUE]
+    ELSE SerStep0(ss, tok, o, D)
+
 RECURSIVE SerFrom(_, _, _, _, _)
 SerFrom(ss, toks, k, o, D) == IF k > Len(toks) THEN ss ELSE SerFrom(SerStep(ss, toks[k], o, D), toks, k + 1, o, D)
 SerRun(toks, o, D) == SerFrom(SerInit, toks, 1, o, D)
+\* observables of a run: render() output (marker when it raised), and where the strict run stops (-2: other exception)
+OutOf(res) == IF res.crash THEN <<-2>> \o X_uee ELSE res.out
+CutOf(res) == IF res.ferr # -1 THEN res.ferr ELSE IF res.crash THEN -2 ELSE -1
 
 -----------------------------------------------------------------------------
 \* ---------- the judge, part 1: what the reader must see (normal form of the given stream) ----------
@@ -278,8 +328,8 @@ FirstBad(E, R, k) ==
 \* verdict of the judge on an output for a given stream: j = 0 when the reader sees exactly the stream
 Judge(toks, o, out) == LET E == ENorm(toks, o) IN FirstBad(E, Retok(out, E, o.escrc), 1)
 \* THE PROPERTY for one run
-Faithful(toks, o, res) == res.errs # <<>> \/ Judge(toks, o, res.out).j = 0
+Faithful(toks, o, res) == res.crash \/ res.errs # <<>> \/ Judge(toks, o, res.out).j = 0
 \* listed deviations whose branch changes what is written / reported for this stream
 Fired(toks, o, D) == LET r == SerRun(toks, o, D) IN
-                     {d \in D : LET q == SerRun(toks, o, D \ {d}) IN q.out # r.out \/ q.errs # r.errs}
+                     {d \in D : LET q == SerRun(toks, o, D \ {d}) IN q.out # r.out \/ q.errs # r.errs \/ q.crash # r.crash}
 =============================================================================
